@@ -2003,3 +2003,77 @@ pub fn judge(name: &str, m0: &M, out: &Outcome) -> Verdict {
         }
     }
 }
+
+// ---------------------------------------------------------------------------
+// Reference interpreter (A.1) for whole executions
+
+/// what the harness instruction PROBE records: INDEX.CURRENT of the top index
+/// (-1 if none), the top INTEGER (None if none), the depth of the INDEX stack
+pub type ProbeRec = (i64, Option<i32>, usize);
+
+pub fn probe_of(m: &M) -> ProbeRec {
+    (m.x.first().map(|x| x.0 as i64).unwrap_or(-1), m.i.first().copied(), m.x.len())
+}
+
+/// One documented interpreter step. Returns false if EXEC was empty (nothing
+/// changes). `as_is`: at known-finding sites use the recorded current behaviour
+/// instead of the documented one. Ambiguous rows take their first reading.
+pub fn ref_step(m: &mut M, log: &mut Vec<ProbeRec>, as_is: bool) -> bool {
+    if m.e.is_empty() {
+        return false;
+    }
+    let top = m.e.remove(0);
+    match top {
+        Tree::B(v) => m.b.insert(0, v),
+        Tree::I(v) => m.i.insert(0, v),
+        Tree::F(v) => m.f.insert(0, v),
+        Tree::Idx(c, d) => m.x.insert(0, (c, d)),
+        Tree::BV(v) => m.bv.insert(0, v),
+        Tree::IV(v) => m.iv.insert(0, v),
+        Tree::FV(v) => m.fv.insert(0, v),
+        Tree::Graph(g) => {
+            if m.graphs.len() < 100 {
+                m.graphs.insert(0, g)
+            }
+        }
+        Tree::Name(n) => {
+            if m.quote {
+                m.n.insert(0, n);
+                m.quote = false;
+            } else if let Some(b) = m.bindings.get(&n).cloned() {
+                m.e.insert(0, b);
+            } else {
+                m.n.insert(0, n);
+            }
+        }
+        Tree::L(items) => {
+            for it in items.into_iter().rev() {
+                m.e.insert(0, it);
+            }
+        }
+        Tree::Ins(name) => {
+            if name == "PROBE" {
+                log.push(probe_of(m));
+            } else if name.starts_with("TICK") || name.starts_with("GROW") {
+                // harness instructions are modelled by their callers
+            } else {
+                if as_is {
+                    if let Some((_, states)) = crate::known::asis_states(&name, m) {
+                        *m = states.into_iter().next().unwrap();
+                        return true;
+                    }
+                }
+                match spec(&name, m) {
+                    Exp::OneOf(v) | Exp::OneOfOrUnfired(v) | Exp::Check(v, _) => {
+                        if let Some(first) = v.into_iter().next() {
+                            *m = first;
+                        }
+                    }
+                    // unfired: the reference consumes nothing
+                    Exp::Unfired | Exp::Unknown | Exp::Any => {}
+                }
+            }
+        }
+    }
+    true
+}
